@@ -142,6 +142,27 @@ func checkTime(x uint32) string {
 	if fit.IsBaseTime(t) != (x == 0) {
 		return fmt.Sprintf("IsBaseTime(decode(%d)) = %v", x, fit.IsBaseTime(t))
 	}
+	// the same instant shown in another zone is the same time: IsBaseTime is
+	// about the instant, and the encoding of an instant does not depend on
+	// the zone it is shown in (decoded local timestamps carry fixed zones
+	// with arbitrary offsets; offsets equal to +-x put the wall clock on the
+	// base time)
+	if x%65537 < 4 || x < 20000 || x > 0xFFFFC000 {
+		for _, off := range zoneOffsets {
+			for _, o := range []int{off, int(x), -int(x)} {
+				if o < -86400*365*80 || o > 86400*365*80 {
+					continue
+				}
+				tz := t.In(time.FixedZone("Z", o))
+				if fit.IsBaseTime(tz) != (x == 0) {
+					return fmt.Sprintf("IsBaseTime(decode(%d) shown in a zone %d s from UTC) = %v", x, o, fit.IsBaseTime(tz))
+				}
+				if back := fit.VerifEncodeTime(tz); back != x {
+					return fmt.Sprintf("encode(decode(%d) shown in a zone %d s from UTC) = %d", x, o, back)
+				}
+			}
+		}
+	}
 	if x != 0xFFFFFFFF {
 		if n := fit.VerifDecodeDateTime(x + 1); !n.After(t) {
 			return fmt.Sprintf("decode is not strictly increasing at %d", x)
@@ -149,6 +170,8 @@ func checkTime(x uint32) string {
 	}
 	return ""
 }
+
+var zoneOffsets = []int{3600, -3600, 1, -1, 19800, -12600, 50400}
 
 func abs64(a int64) int64 {
 	if a < 0 {
